@@ -466,8 +466,13 @@ class DocGen:
                 parts.append(f"{a['name']}: {print_value(self.arg_value(a['type'], vars_))}")
         return ("(" + ", ".join(parts) + ")") if parts else ""
 
+    note_directive = False   # emit the custom query-side directive @note(t: $var) (must be declared + registered by the check)
+
     def directives_text(self, vars_):
         r = self.r
+        if self.note_directive and vars_ is not None and r.random() < 0.2:
+            v = self.new_var(N("String"), vars_)
+            return f" @note(t: ${v})", True
         if r.random() > 0.15: return "", True
         self.stats["directives"] += 1
         name = r.choice(["skip", "include"])
